@@ -257,7 +257,7 @@ func Check[C any](t *testing.T, p Prop[C]) {
 	var lastFail *C
 	defer st.flush()
 	defer func() { // rapid ends a failing test with FailNow: the structural minimisation runs on the way out
-		if !st.Failed || lastFail == nil || p.Minimize == nil {
+		if !st.Failed || lastFail == nil || p.Minimize == nil || os.Getenv("VERIF_NO_MINIMIZE") != "" {
 			return
 		}
 		prefix := failKind(st.FailMsg)
